@@ -1,4 +1,5 @@
 import SplinkVerif.Lemmas.EM
+import SplinkVerif.Lemmas.ArithBridge
 /-!
 # C03 — EM training performs exact EM steps
 
@@ -91,6 +92,14 @@ theorem start_prior_formula (prior : ℝ) (bfs : List ℝ) :
     startPrior prior bfs =
       (prior / (1 - prior) * bfs.prod) / (1 + prior / (1 - prior) * bfs.prod) :=
   Lemmas.EM.startPrior_eq prior bfs
+
+/-- The starting prior of an EM session as the source computes it — `bayes_factor_to_prob` of `prob_to_bayes_factor prior`
+multiplied by the Bayes factors of the levels the training rule implies (translated helpers, `Generated/Arith.lean`,
+regenerated every run) — is the model's `startPrior`. -/
+theorem start_prior_translated (prior : ℝ) (bfs : List ℝ) (hp : prior ≠ 1) :
+    (Gen.prob_to_bayes_factor prior).bind (fun b0 => Gen.bayes_factor_to_prob (bfs.foldl (fun acc b => b * acc) b0))
+      = some (EM.startPrior prior bfs) :=
+  Lemmas.ArithBridge.start_prior_translated prior bfs hp
 
 /-- The levels chosen for a training rule: each chosen level's columns are all columns of
 the rule, no column is used by two chosen levels, and indices are valid. -/
